@@ -20,6 +20,11 @@ class DirectFace(Face):
             await asyncio.sleep(d / 1e6)        # connecting takes a while (a handshake, a slow peer)
         self._closed = asyncio.get_running_loop().create_future()
         self.running = True
+        hook = getattr(self, 'on_opened', None)
+        if hook is not None:
+            # something else that was waiting for the connection (another task of the program) runs right after open()
+            # has returned - before whatever the application itself schedules next
+            asyncio.get_running_loop().call_soon(hook)
 
     def shutdown(self):
         self.running = False
